@@ -21,7 +21,7 @@ from checks.common import jcopy, short
 ALLOW = ('all', 'remote', 'local', 'sandbox', 'none')
 MECHANISMS = ('include', 'import', 'redefine', 'override', 'chained', 'locations_arg', 'uri_mapper_dict',
               'uri_mapper_call', 'hint_iter_errors', 'hint_validate', 'fallback_absent', 'fallback_illformed',
-              'fallback_404', 'fallback_timeout')
+              'fallback_404', 'fallback_timeout', 'wildcard_load_namespace', 'xmldocument_parse')
 MAIN_KINDS = ('path', 'fileurl', 'remote', 'text_base', 'stream_url')
 
 # (id, spelling template relative to the main document's directory, class of the target, marker id)
@@ -198,8 +198,9 @@ class C12(Check):
         if m == 'hint_validate':
             main = 'path'      # the instance document is the main source; the schema comes from its hints
         relbase = bool(self._relbase and main in ('path', 'text_base') and a == 'sandbox')
+        nobase = bool(a == 'sandbox' and main in ('path', 'fileurl') and not relbase and rng.random() < 0.5)
         return {'allow': a, 'mech': m, 'spell': s, 'main': main, 'slash': rng.random() < 0.5, 'version': version,
-                'relbase': relbase,
+                'relbase': relbase, 'nobase': nobase,
                 # the main source itself lies in the OTHER tree (outside the sandbox of the current directory)
                 'othertree': bool(relbase and main == 'path' and rng.random() < 0.5)}
 
@@ -216,7 +217,7 @@ class C12(Check):
         counters = {}
         violations = []
         import_like = mech in ('import', 'locations_arg', 'uri_mapper_dict', 'uri_mapper_call', 'hint_iter_errors',
-                               'hint_validate') or mech.startswith('fallback')
+                               'hint_validate', 'wildcard_load_namespace', 'xmldocument_parse') or mech.startswith('fallback')
         fname = 'imp.xsd' if import_like else 'inc.xsd'
         loc = tmpl.replace('{W}', root).replace('{F}', fname)
         remote_main = main_kind == 'remote'
@@ -238,7 +239,7 @@ class C12(Check):
         elif mech == 'uri_mapper_call':
             kw['uri_mapper'] = lambda u, _l=loc: _l if u == 'urn:mapped-target' else u
             uri = 'urn:mapped-target'
-        elif mech == 'locations_arg':
+        elif mech in ('locations_arg', 'wildcard_load_namespace'):
             kw['locations'] = {NS_T: loc}
         fault = None
         if mech.startswith('fallback'):
@@ -256,7 +257,7 @@ class C12(Check):
                 first = 'http://sim.test/r/slow.xsd'
             uri = first
             kw['locations'] = {NS_T: loc}
-        text = main_xsd(mech if not mech.startswith('hint') else 'none', uri, case['version'])
+        text = main_xsd(mech if not mech.startswith(('hint', 'wildcard', 'xmldocument')) else 'none', uri, case['version'])
         if mech == 'chained':
             chain = (f'<xs:schema xmlns:xs="http://www.w3.org/2001/XMLSchema" targetNamespace="{NS_MAIN}">\n'
                      f' <xs:include schemaLocation="{loc}"/>\n</xs:schema>\n')
@@ -264,13 +265,14 @@ class C12(Check):
             peer.pages['http://sim.test/base/sand/chain.xsd'] = chain.encode()
         main_path = world.write('base/sand/main.xsd', text)
         base_dir = world.sand + ('/' if case['slash'] else '')
+        nobase = bool(case.get('nobase'))
         if main_kind == 'path':
             source = main_path
-            if allow == 'sandbox':
+            if allow == 'sandbox' and not nobase:
                 kw['base_url'] = base_dir
         elif main_kind == 'fileurl':
             source = 'file://' + main_path
-            if allow == 'sandbox':
+            if allow == 'sandbox' and not nobase:
                 kw['base_url'] = 'file://' + base_dir
         elif main_kind == 'remote':
             source = 'http://sim.test/base/sand/main.xsd'
@@ -314,6 +316,9 @@ class C12(Check):
         if mech in ('hint_validate', 'hint_iter_errors'):
             # written BEFORE the monitor is armed: the harness' own writes are not fetches
             doc_path = world.write('base/sand/doc.xml', self.hint_doc(loc, main_first=mech == 'hint_validate'))
+        elif mech in ('wildcard_load_namespace', 'xmldocument_parse'):
+            doc_path = world.write('base/sand/doc.xml', f'<m:root xmlns:m="{NS_MAIN}"><t:fetched xmlns:t="{NS_T}">1'
+                                                        f'</t:fetched></m:root>')
         self.monitor.start([root, self.pkg_schemas] + ([root_a] if root_a else []))
         try:
             with warnings.catch_warnings(record=True) as wlist:
@@ -326,6 +331,16 @@ class C12(Check):
                         xmlschema.validate(doc_path, cls=cls, **vkw)
                     else:
                         schema = cls(source, **kw)
+                        if mech == 'wildcard_load_namespace':
+                            # a lax wildcard meets an unknown namespace: the loader tries the locations= hints
+                            outcome['errors'] = [e.reason for e in schema.iter_errors(doc_path)]
+                        elif mech == 'xmldocument_parse':
+                            dkw = {k: v for k, v in kw.items() if k in ('allow', 'base_url')}
+                            if allow == 'sandbox' and 'base_url' not in dkw:
+                                dkw['base_url'] = base_dir
+                            xdoc = xmlschema.XmlDocument(doc_path, schema=schema, validation='skip', **dkw)
+                            xdoc.parse(loc if '://' in loc or loc.startswith('/') else os.path.join(world.sand, loc))
+                            outcome['doc_allow_after_parse'] = xdoc.allow
                         if mech == 'hint_iter_errors':
                             outcome['errors'] = [e.reason for e in schema.iter_errors(doc_path, use_location_hints=True)]
                 except BaseException as exc:
@@ -427,7 +442,11 @@ class C12(Check):
             counters['probe_fallback_location_tried_after_failed_fetch'] = int(target_fetched or any(
                 k == 'remote' and w.endswith(('gone.xsd', 'slow.xsd')) for k, w in fetches))
         refused = outcome['exc'] in ('XMLResourceBlocked',) or any('lock' in w for w in outcome['warnings'])
-        skeleton = [allow, main_kind, mech, sid, case['slash'] if allow == 'sandbox' else None, case.get('relbase', False)]
+        if outcome.get('doc_allow_after_parse') not in (None, allow):
+            violations.append({'signature': dict(sigbase, clause='allow-mode-changed-by-parse', now=outcome['doc_allow_after_parse']),
+                               'detail': {'case': case, 'outcome': outcome}})
+        skeleton = [allow, main_kind, mech, sid, case['slash'] if allow == 'sandbox' else None, case.get('relbase', False),
+                    case.get('nobase', False)]
         return {'violations': violations, 'skeleton': skeleton, 'nontrivial': bool(beyond or refused or denied),
                 'counters': counters, 'digest': core.stable_hash([fetches_rel(fetches, root), outcome['exc']]),
                 'sample': {'case': case, 'fetches': fetches_rel(fetches, root)[:6], 'outcome': outcome['exc']}}
